@@ -355,8 +355,11 @@ def shipping_stage(R, prop, tier, rng, known):
             meta[tid] = (blt, opts, T)
     if not traces:
         return
-    verd, res = vlib.judge(traces, [prop], workers=16, module='TraceBigProps' if big else 'TraceProps')
-    R.add_tlc(res)
+    verd = {}
+    for lo in range(0, len(traces), 400):          # limb-encoded traces are bulky: small TLC batches
+        v1, res = vlib.judge(traces[lo:lo + 400], [prop], workers=16, heap_mb=6144, module='TraceBigProps' if big else 'TraceProps')
+        verd.update(v1)
+        R.add_tlc(res)
     R.cov['traces_validated_against_impl'] += len(traces)
     nf = 0
     for i, fails in verd.items():
